@@ -397,6 +397,10 @@ func namedLoop(c *core.Ctx, wm *walkModel, l e2.LoopRes) (string, bool) {
 			}
 		}
 	}
+	// tree descent: the loop forms of the walk
+	if w := wm.shape; w.outer == h && w.form != "recursive" {
+		return "tree descent: every back edge replaces the current node by one of its children (R03.2: the accepting child, or the non-nil result of the child scan, which only returns elements of its receiver's children); the tree is finite and acyclic (R03.1: single parent, chains end at the root; R14.1; R06.3), and the whole descent runs under one read lock (R06.6), so the depth of the current node grows strictly and is bounded by the height of the tree", true
+	}
 	// parent chain
 	if f == wm.chain {
 		for _, in := range h.Instrs {
